@@ -20,6 +20,8 @@ import (
 
 const c04Decls = `package p
 
+import "time"
+
 type Level int
 
 const (
@@ -65,6 +67,7 @@ type Payload struct {
 	P      Pair
 	M      map[string]int
 	In     Inner
+	At     time.Time
 	hidden int
 	Skip   int ` + "`json:\"-\"`" + `
 }
@@ -906,7 +909,7 @@ func HC04_exec() {
 	}
 	text := "package p\n\nconst sqlText = " + fmt.Sprintf("%q", sqlText) + "\n"
 	errs := vfExec("example.com/mod/p", []string{"/m/p/p.go", "/m/p/gen.go", "/m/p/sql.go", "/m/p/eval.go", "/m/p/check.go"},
-		[]string{c04Decls, goText, text, c04Evaluator, c04Tier(c04Check)}, nil, "Check")
+		[]string{c04Decls, execAddImports(goText, "time"), text, c04Evaluator, c04Tier(c04Check)}, nil, "Check")
 	if len(errs) > 0 {
 		vfObserve("error", errs[0])
 	}
